@@ -146,6 +146,7 @@ def run(prog, rep):
                       '[0, 999999999] (shared with C06 R6.3): negative sub-second values survive the MsgPack form', floor=4)
     from rules import c06
     c06.check_floor_split(prog, rep, 'R14.4')
+    check_print_overflow(prog, rep)
     # the binary timestamp form of both MsgPack writers / readers (tables shared with C06 R6.1 and C07 R7.1)
     rep.rule('R14.5', 'MsgPack binary form of a timestamp, both writers: over the (seconds, nanoseconds) cells the layout (timestamp 32 / 64 / 96) is '
                       'the one that holds the value - no seconds bits are dropped by choosing a narrower layout', floor=20)
@@ -183,6 +184,47 @@ def run(prog, rep):
                             '(begin = %s, end = %s as (array, offset, length))' % (p1, p2), func=f.id)
     if n2 < 2:
         raise AnalysisBroken('R14.2: callers of PrintIsoUtc not found')
+
+
+def check_print_overflow(prog, rep):
+    """time_point -> ISO text (the function with Hinnant's civil-from-days arithmetic), every instantiated precision: interpreted over linear
+    forms with the source count ranging over its whole type (rules/chronolin.py); no signed operation - including the conversions that
+    std::chrono performs when the value is split into days and time of day - leaves its type on a path that goes on to print. Unsigned
+    locals computed by unsigned arithmetic (day-of-era .. month) are abstracted to their type range: their exact values are not claimed."""
+    from rules import chronolin as CL
+    rep.rule('R14.7', 'time_point -> ISO text, every instantiated precision and representation: splitting into days / time of day and the era '
+                      'arithmetic cause no signed overflow for any representable time point (or the value is refused with an exception first)', floor=5)
+    fs = [f for f in prog.funcs.values() if f.body is not None and f.relfile.endswith('conversion_detail/convert_chrono.h') and f.name == 'To'
+          and len(f.params) == 2 and 'time_point' in f.tu['types'][f.params[0]['t']] and any(x.get('cv') == 719468 for x in f.walk())]
+    if not fs:
+        raise AnalysisBroken('anchor vanished: To(time_point, string&) with the days -> civil date arithmetic')
+    seen = set()
+    for f in sorted(fs, key=lambda g: g.id):
+        src = CL.duration_of(f.tu['types'][f.params[0]['t']])
+        if src is None or src in seen:
+            continue
+        seen.add(src)
+        rep.touch(f)
+        model = CL.ChronoModel(CL.rep_range(src[0]))
+
+        def setup(it, fr):
+            fr.env[f.params[0]['d']] = CL.X
+            fr.env[f.params[1]['d']] = TOP
+        ev = {}
+        n_paths = 0
+        for p in CL.run(prog, f, model, setup, max_paths=3000):
+            n_paths += 1
+            for a in p.actions:
+                if a[0] == 'OVERFLOW':
+                    ev.setdefault((a[2], a[1]), a)
+        site = 'To(time_point)|%s x %s' % src
+        if ev:
+            first = sorted(ev.values(), key=lambda a: a[2])[0]
+            rep.finding('R14.7', site, first[2], 'printing a time_point<%s, period %s s>: %s (%s, X = the count of the time point) is not representable in %s for some '
+                        'time point - signed overflow, undefined behaviour' % (src[0], src[1], first[1], first[3], first[4]),
+                        {'events': [str(a[:5]) for a in sorted(ev.values(), key=lambda a: a[2])[:6]], 'instantiation': f.id}, func=f.id)
+        else:
+            rep.ok('R14.7', site, sample={'precision': '%s x %s' % src, 'paths': n_paths})
 
 
 def ptr_off(f, e, depth=0):
